@@ -116,6 +116,9 @@ class PolMonitor:
                 return
             if out.pol_type != target:
                 ctx.violation(o, f"{name} result has pol_type {out.pol_type!r}", None, dict(feats, what="flag"))
+            if hasattr(z, "station") and getattr(out, "station", None) != z.station:
+                ctx.violation(o, f"{name} dropped the subclass attribute station={z.station!r} (got {getattr(out, 'station', None)!r})", None,
+                              dict(feats, what="subclass_attr"))
             meta_same(ctx, o, z, out, name, feats)
             y = gen.np_data(out)
             if y.shape != x.shape:
@@ -167,6 +170,19 @@ class PolMonitor:
             ctx.count("nontrivial[pol]")
 
 
+class StationSignal(pb.DualPolarizationSignal):
+    """A user subclass with one more constructor keyword, the way the class documentation invites (Signal.like() forwards it)."""
+
+    def __init__(self, z, /, *, sample_rate, center_freq, pol_type, station="?", start_time=None, freq_align="center", meta=None):
+        super().__init__(z, sample_rate=sample_rate, center_freq=center_freq, pol_type=pol_type, start_time=start_time,
+                         freq_align=freq_align, meta=meta)
+        self._station = station
+
+    @property
+    def station(self):
+        return self._station
+
+
 def make_dp(rng, n, nchan, trailing, dtype, pol, use_dask, magnitude):
     shape = (n, nchan, 2) + trailing
     x = rng.standard_normal(shape) + 1j * rng.standard_normal(shape)
@@ -183,10 +199,14 @@ def make_dp(rng, n, nchan, trailing, dtype, pol, use_dask, magnitude):
     pol_arg = [pol, "".join(list(pol)), np.str_(pol), pol.upper().lower(), pol][how]
     sig, desc = gen.make_signal(rng, "DualPolarizationSignal", n, data=x, pol=pol_arg, dask=use_dask,
                                 rate=gen.rand_rate(rng, lo=0, hi=8))
+    sub = gen._side_rng(rng).random() < 0.2
+    if sub:
+        with probes.quiet():
+            sig = StationSignal.like(sig, station="ST%d" % int(rng.integers(100)))
     if how == 4:
         import pickle
         sig = pickle.loads(pickle.dumps(sig))
-    desc.update(pol=pol, magnitude=magnitude, pol_string_kind=["literal", "joined", "np.str_", "upper.lower", "pickled"][how])
+    desc.update(pol=pol, magnitude=magnitude, subclass=bool(sub), pol_string_kind=["literal", "joined", "np.str_", "upper.lower", "pickled"][how])
     return sig, desc
 
 
@@ -263,6 +283,23 @@ def wl_pol(ctx, idx, rng):
                 if isinstance(s0.data, da.Array):
                     break
                 ctx.call(o, lambda: np.multiply(s0, 3.0, out=s0), where="np.multiply(out=)")
+    # history: relabelling a conversion *result* through its public setters must leave the signal it came from as it was
+    with probes.quiet():
+        m0 = monitors.meta_of(sig)
+        flip = {"linear": "circular", "circular": "linear"}
+        for r_ in (lin, cir):
+            r_.pol_type = flip[r_.pol_type]
+            r_.center_freq = r_.center_freq + 7 * r_.chan_bw
+            r_.start_time = None
+            r_.meta = {"relabelled": True}
+        m1 = monitors.meta_of(sig)
+    ctx.count("oracle[result_independent]")
+    for k in ("pol", "fc", "meta", "rate", "align"):
+        if m0.get(k) != m1.get(k):
+            ctx.violation(o, f"changing {k} of a to_linear()/to_circular() result through its setter changed the original signal: "
+                             f"{m0.get(k)!r} -> {m1.get(k)!r}", None, {"what": "result_aliases_input", "attr": k})
+    if not monitors.same_time(m0["start"], m1["start"], 0):
+        ctx.violation(o, "changing start_time of a conversion result changed the original signal", None, {"what": "result_aliases_input", "attr": "start"})
     ctx.bucket(pol, np.dtype(dtype).name, nchan, trailing, "dask" if use_dask else "np", magnitude)
 
 
